@@ -90,8 +90,7 @@ def v6Chunks (l : Nat) : List Bytes → Bool → Option (List Bytes × Bool)
       | some (r, s) => some ((List.replicate (4 - c.length) 48 ++ c) :: r, s)
       | none => none
 
-/-- `dns.ipv6.inet_aton(text, ignore_scope=True)`.  `none` = SyntaxError.
-(Text without a newline; the `$` of the dot-quad pattern is then the end of the text.) -/
+/-- `dns.ipv6.inet_aton(text, ignore_scope=True)`.  `none` = SyntaxError. -/
 def ipv6Aton (t : Bytes) : Option Bytes :=
   let parts := split 37 t
   if parts.length > 2 then none else
@@ -101,22 +100,28 @@ def ipv6Aton (t : Bytes) : Option Bytes :=
   else if startsWith b [58] && !startsWith b [58, 58] then none
   else
     let b := if b = [58, 58] then [48, 58, 58] else b
-    -- dot-quad ending
+    -- dot-quad ending: `(.*):(\d+\.\d+\.\d+\.\d+)$` — `.` does not match a newline, `$` also matches before one
+    -- trailing newline (which is then dropped with the rewrite)
     let b? : Option Bytes :=
-      match lastIndexOf 58 b with
+      let b1 := if endsWith b [10] then b.dropLast else b
+      if b1.contains 10 then some b
+      else match lastIndexOf 58 b1 with
       | some i =>
-        let suf := b.drop (i + 1)
+        let suf := b1.drop (i + 1)
         if looksDotQuad suf then
           match ipv4Aton suf with
-          | some [b0, b1, b2, b3] => some (b.take i ++ [58] ++ hex2 b0 ++ hex2 b1 ++ [58] ++ hex2 b2 ++ hex2 b3)
+          | some [b0, b1', b2, b3] => some (b1.take i ++ [58] ++ hex2 b0 ++ hex2 b1' ++ [58] ++ hex2 b2 ++ hex2 b3)
           | _ => none
         else some b
       | none => some b
     match b? with
     | none => none
     | some b =>
+      -- `::.*` at the start; else `.*::$` (again: no newline inside, one allowed at the very end)
       let b := if startsWith b [58, 58] then b.drop 1
-               else if endsWith b [58, 58] then b.dropLast else b
+               else if endsWith b [58, 58] && !(b.dropLast.dropLast).contains 10 then b.dropLast
+               else if endsWith b [58, 58, 10] && !(b.dropLast.dropLast.dropLast).contains 10 then b.dropLast
+               else b
       let chunks := split 58 b
       let l := chunks.length
       if l > 8 then none
